@@ -131,6 +131,40 @@ fn main() {
     println(z / 2 * 2, z % 3 * 2, z * 2 / 3, 2 * z / 3);
 }
 `,
+	// negative LEFT operands of a product (the class only asks for small non-negative right operands) and
+	// string concatenation next to numeric addition
+	"signed-products-and-strings": `fn scale(k: int) -> int { k * 3 }
+fn tag(name: str) -> str { "<" + name + ">" }
+fn main() {
+    let n = 0 - 2;
+    println(n * 3, -2 * 3, (0 - 5) * 4, scale(0 - 7), -1 * 0, n * 1);
+    let a = -4 * 2 + 1;
+    let b = (0 - 3) * 2 * 2;
+    println(a, b, a * 2, b * 3);
+    let s = "x" + "y";
+    let t = tag("h1") + "Homescript" + tag("/h1");
+    println(s, t, s + t == "xy" + t, "a" + "b" != "b" + "a");
+    if "p" + "q" == "pq" { println("equal"); } else { println("not equal"); }
+}
+`,
+	// a program that uses the names the transformer's rewrites introduce
+	"generated-names": `fn main() {
+    let mul_res = 3;
+    let mul_count = 2;
+    let lhs_init = 4;
+    let count_once = 5;
+    println(mul_res * 2, 7 * 2, lhs_init * 3, mul_count * 1);
+    println(count_once + 1, mul_res + mul_count + lhs_init);
+    for _i in 0..2 {
+        println(_i, count_once * 2);
+    }
+    let i = 0;
+    while i < 2 {
+        i += 1;
+        println(i * 2, mul_count);
+    }
+}
+`,
 	"nested-exits": `fn f(x: int) -> str {
     let out = "";
     for i in 0..6 {
